@@ -270,6 +270,7 @@ type Site struct {
 	Kind   string // call, alloc, return, store
 	Target string // callee / type / "nil" | "nonnil" | "" / T.f
 	Assert Clause
+	Assume bool // domain restriction: assumed, not proved
 	Label  string
 	Nth    int // -1: every match; k: only the k-th match in encounter order
 }
@@ -351,7 +352,7 @@ type ContractFile struct {
 	InlineFuncs []string
 }
 
-var siteAssertRe = regexp.MustCompile(`:\s*assert\s+`)
+var siteAssertRe = regexp.MustCompile(`:\s*(assert|domain)\s+`)
 
 var clauseKeywords = map[string]bool{
 	"spec": true, "func": true, "extern": true, "lemma": true, "props": true, "requires": true,
@@ -634,6 +635,9 @@ func ParseContractFile(path, pkgPath string) (*ContractFile, error) {
 				return nil, err
 			}
 			st.Assert = c
+			// "domain E": E is ASSUMED at the program point (a stated restriction of the domain
+			// the property is claimed on, listed in the evidence), not proved
+			st.Assume = strings.Contains(rc.text[loc[0]:loc[1]], "domain")
 			cur.Sites = append(cur.Sites, st)
 		case "loop":
 			f := strings.Fields(rc.text)
